@@ -435,6 +435,32 @@ def F42(fil):
     return abs(kurt + 0.5) > 1e-3, f"merged kurtosis of two unit-variance halves of 2**20 samples with means 0 and 2: {kurt:.3f} (exact value -0.5)"
 
 
+def F43(fil):
+    fil.compute_stats_basic(quiet=True)
+    _, mask = fil.clean_rfi(outfile_name="f43.fil", quiet=True)
+    return bool(np.all(mask.chan_skew == 0) and np.all(mask.chan_kurt == -3)), (
+        f"clean_rfi after compute_stats_basic: skew all zero = {bool(np.all(mask.chan_skew == 0))}, kurtosis all -3 = {bool(np.all(mask.chan_kurt == -3))}")
+
+
+def F44(fil):
+    from sigpyproc.core.rfi import iqrm_mask
+    x = np.random.default_rng(3).normal(size=128)
+    x[40] += 60
+    full = np.repeat(x, 2)
+    a, b = iqrm_mask(full[::2], 3.0), iqrm_mask(full[::2].copy(), 3.0)
+    return not np.array_equal(a, b), f"iqrm_mask on a strided view vs its contiguous copy: {int((a != b).sum())} channels differ"
+
+
+def F45(fil):
+    m = RFIMask(3.0, fil.header, *(np.zeros(fil.header.nchans, dtype=np.float32) for _ in range(6)))
+    f = fil.header.chan_freqs
+    m.apply_mask([(f[2], f[2])])
+    m.apply_mask([(f[5], f[5])])
+    union = m.user_mask | m.stats_mask | m.custom_mask
+    return not np.array_equal(union, m.chan_mask), (f"after two apply_mask calls chan_mask has channels {np.flatnonzero(m.chan_mask).tolist()}, "
+                                                    f"the union of the stored components {np.flatnonzero(union).tolist()}")
+
+
 ALL = {k: v for k, v in globals().items() if k.startswith("F") and k[1:].isdigit()}
 
 
